@@ -3,6 +3,7 @@ package rules
 import (
 	"fmt"
 	"go/token"
+	"go/types"
 	"strings"
 
 	"golang.org/x/tools/go/ssa"
@@ -29,23 +30,35 @@ func c19Emission(c *ctx) {
 	if fn == nil {
 		return
 	}
-	var send *ssa.Send
+	// the emission: a send statement or the send arm of a select
+	var send ssa.Instruction
+	var sendX ssa.Value
 	var cl *ssa.Function
+	nEmit := 0
 	for _, g := range core.WithClosures(fn) {
 		for _, b := range g.Blocks {
 			for _, in := range b.Instrs {
 				if s, ok := in.(*ssa.Send); ok && strings.Contains(s.X.Type().String(), "GermainSafePrime") {
-					send, cl = s, g
+					send, sendX, cl = s, s.X, g
+					nEmit++
+				}
+				if sel, ok := in.(*ssa.Select); ok {
+					for _, st := range sel.States {
+						if st.Dir == types.SendOnly && st.Send != nil && strings.Contains(st.Send.Type().String(), "GermainSafePrime") {
+							send, sendX, cl = sel, st.Send, g
+							nEmit++
+						}
+					}
 				}
 			}
 		}
 	}
-	if send == nil {
-		c.r.Bad(rule, fkey(rule, fn, "emission"), c.fpos(fn), "no send of a candidate pair found")
+	if send == nil || nEmit != 1 {
+		c.r.Bad(rule, fkey(rule, fn, "emission"), c.fpos(fn), fmt.Sprintf("expected one send of a candidate pair, found %d", nEmit))
 		return
 	}
 	facts := core.FactsAt(send.Block())
-	sent := storedFields(send.X)
+	sent := storedFields(sendX)
 	pS, qS := core.Strip(sent["p"]), core.Strip(sent["q"])
 	same := func(v ssa.Value, want ssa.Value) bool {
 		return want != nil && (core.Strip(v) == want || core.TermOf(v).Key() == core.TermOf(want).Key() || sameLoad(core.Strip(v), want))
@@ -337,6 +350,45 @@ func c19CancelJoin(c *ctx) {
 			}
 		}
 		c.r.Check(okPoll, rule, fkey(rule, w, "polls-ctx-each-candidate"), c.fpos(w), "ctx.Done() is polled before every candidate is drawn", "the worker does not poll ctx.Done() at the head of every candidate iteration")
+		// a worker produces primes without bound while the collector stops receiving after numPrimes: a send
+		// on the prime channel must be abandoned when the generator is cancelled, i.e. be one arm of a
+		// blocking select whose other arm receives from ctx.Done() and returns
+		isPrimeChan := func(v ssa.Value) bool { return strings.HasSuffix(v.Type().String(), "GermainSafePrime") }
+		okSend, whySend, nSend := true, "", 0
+		for _, b := range cl.Blocks {
+			for _, in := range b.Instrs {
+				switch x := in.(type) {
+				case *ssa.Send:
+					if isPrimeChan(x.Chan) {
+						nSend++
+						okSend, whySend = false, "the plain send at "+c.pos(x)+" blocks for ever once the channel is full and the collector has returned: the deferred Wait of the generator never ends (seen at small bit lengths, where almost every candidate is a safe prime)"
+					}
+				case *ssa.Select:
+					sendArm, doneArm := -1, -1
+					for i, st := range x.States {
+						if st.Dir == types.SendOnly && isPrimeChan(st.Chan) {
+							sendArm = i
+						}
+						if st.Dir == types.RecvOnly && strings.Contains(descr(st.Chan), "Done()") {
+							doneArm = i
+						}
+					}
+					if sendArm < 0 {
+						continue
+					}
+					nSend++
+					if !x.Blocking || doneArm < 0 {
+						okSend, whySend = false, "the select at "+c.pos(x)+" sending a prime has no arm receiving from ctx.Done() (or has a default arm and drops primes)"
+						continue
+					}
+					// the Done arm returns: from the block taken when index == doneArm no send or entropy read is reachable
+					if !selectArmReturns(x, doneArm) {
+						okSend, whySend = false, "after ctx.Done() fires in the select at "+c.pos(x)+" the worker keeps running"
+					}
+				}
+			}
+		}
+		c.r.Check(okSend && nSend > 0, rule, fkey(rule, w, "prime-send-watches-ctx"), c.fpos(w), "every send of a prime is an arm of a select that also watches ctx.Done() and returns on it", whySend)
 	}
 	// pre-parameter producers
 	if g := c.mustFunc(rule, "ecdsa/keygen", "GeneratePreParamsWithContextAndRandom"); g != nil {
@@ -580,4 +632,54 @@ func phiGuarded(v ssa.Value, holds func(val ssa.Value, facts []core.TFact) bool)
 		return false
 	}
 	return core.PhiInvariant(v, nil, holds)
+}
+
+// selectArmReturns: when the blocking select takes arm k, the function returns without running
+// another loop iteration: the successor taken on `index == k` reaches a Return and cannot reach the select again.
+func selectArmReturns(sel *ssa.Select, k int) bool {
+	var idx ssa.Value
+	if refs := sel.Referrers(); refs != nil {
+		for _, r := range *refs {
+			if e, ok := r.(*ssa.Extract); ok && e.Index == 0 {
+				idx = e
+			}
+		}
+	}
+	if idx == nil {
+		return false
+	}
+	fn := sel.Parent()
+	for _, b := range fn.Blocks {
+		iff, ok := b.Instrs[len(b.Instrs)-1].(*ssa.If)
+		if !ok {
+			continue
+		}
+		bo, ok := iff.Cond.(*ssa.BinOp)
+		if !ok || bo.Op != token.EQL || bo.X != idx {
+			continue
+		}
+		if c, isK := core.ConstInt(bo.Y); !isK || int(c) != k {
+			continue
+		}
+		return !core.Reaches(b.Succs[0], sel.Block())
+	}
+	// the last arm is reached by falling through all comparisons: find the block where every other
+	// index has been excluded
+	n := len(sel.States)
+	if k == n-1 {
+		for _, b := range fn.Blocks {
+			iff, ok := b.Instrs[len(b.Instrs)-1].(*ssa.If)
+			if !ok {
+				continue
+			}
+			bo, ok := iff.Cond.(*ssa.BinOp)
+			if !ok || bo.Op != token.EQL || bo.X != idx {
+				continue
+			}
+			if c, isK := core.ConstInt(bo.Y); isK && int(c) == n-2 {
+				return !core.Reaches(b.Succs[1], sel.Block())
+			}
+		}
+	}
+	return false
 }
